@@ -633,20 +633,34 @@ def apply_position(B: Built, pos: dict, manual: bool, inplace: bool = False):
 
 
 def simulate_then_restore(B: Built) -> dict:
-    """model.simulate(key) - caught if it fails -, then every assignable value is assigned back (simulate may have
-    drawn some variables before failing).  Returns what happened and model.auto_update right after simulate."""
+    """model.simulate(key) - caught if it fails -, then the value of EVERY strong variable of the model (and of every
+    assignable node) is put back: simulate may have drawn some variables before failing, observed ones included, and
+    in float32 programs its draws can be float64.  The values are put back with auto-update off (half-restored states
+    may mix dtypes), followed by update(); auto_update is then left at what simulate() left it at, so that nothing
+    the implementation did to the flag is masked.  Returns what happened."""
     import numpy as np
     import jax
-    snap = {k: np.array(o.value) for k, o in B.assign.items()}
-    before = bool(B.model.auto_update)
+    m = B.model
+    targets = {}
+    for name, var in m.vars.items():
+        if var.strong:
+            targets["var:" + name] = var
+    for k, o in B.assign.items():
+        if not any(o is t for t in targets.values()):
+            targets["assign:" + k] = o
+    snap = {k: (np.array(o.value), getattr(np.asarray(o.value), "dtype", None)) for k, o in targets.items()}
+    before = bool(m.auto_update)
     raised = False
     try:
-        B.model.simulate(jax.random.PRNGKey(7))
+        m.simulate(jax.random.PRNGKey(7))
     except Exception as ex:   # noqa
         raised = type(ex).__name__
-    after = bool(B.model.auto_update)
-    for k, val in snap.items():
-        B.assign[k].value = np.asarray(val, dtype=B.dtype)
+    after = bool(m.auto_update)
+    m.auto_update = False
+    for k, (val, dt) in snap.items():
+        targets[k].value = np.asarray(val, dtype=dt)
+    m.update()
+    m.auto_update = after
     return {"raised": raised, "auto_update_before": before, "auto_update_after": after}
 
 
